@@ -82,6 +82,11 @@ def layouts(x, rng=None, which=("contiguous", "transposed", "sliced", "expanded"
             big = torch.zeros([x.shape[0] * 2] + list(x.shape[1:]), dtype=x.dtype)
             big[::2] = x
             yield w, big[::2]
+        elif w == "windows" and x.ndim == 2 and x.numel() >= x.shape[0] + x.shape[1] - 1:
+            # sliding windows over a vector (unfold): rows overlap in memory, strides (1, 1). NOT the values of x: the rows of
+            # the result are consecutive windows of x's first elements (judged against their own values)
+            v = x.reshape(-1)[: x.shape[0] + x.shape[1] - 1].contiguous()
+            yield w, v.unfold(0, x.shape[1], 1)
         elif w == "expanded" and x.ndim >= 2:
             # a stride-0 tensor has equal values along the expanded dim: build it from the first slice
             y = x[:1].expand(x.shape)
